@@ -679,6 +679,10 @@ class Monitors(Listener):
                 self.viol("C19", "buffer-is_empty-wrong", "")
             if bool(sim.scheduler.is_idle()) != (len(sim.scheduler.observation_queue) == 0):
                 self.viol("C19", "scheduler-is_idle-wrong", "")
+            if bool(sim.scheduler.is_idle()) and hot.observations["scheduled"]:
+                # an observation handed to the scheduler stays queued until the block that frees its data
+                self.viol("C19", "scheduler-idle-with-observations-in-processing",
+                          "is_idle() while %s are scheduled in the hot tier" % [o_.name for o_ in hot.observations["scheduled"]])
             if bool(tel.is_idle()):
                 # ... and no observation is inside the window it occupies on the telescope
                 for o_ in tel.observations:
